@@ -41,7 +41,7 @@ func RestorePart(run *report.Run, st *Setup, n int) {
 			}
 		}()
 		cfg := BuildCfg{EnableCache: true}
-		kinds := append([]string{"chmod"}, PerturbKinds...)
+		kinds := append([]string{"chmod", "modified+chmod", "modified+chmod"}, PerturbKinds...)
 		for k := 0; k < 6; k++ {
 			name := "cold"
 			if k > 0 {
